@@ -433,6 +433,21 @@ def _cvc5(smt2, ms):
         os.unlink(path)
 
 
+def _check(s, ms):
+    """solver.check() under a wall-clock guard: z3's `timeout` parameter is not honoured inside some of its tactics (a check was observed
+    to run for minutes with a 10 s timeout), so a timer interrupts the context a little after the budget; the result is then unknown"""
+    import threading
+    t = threading.Timer(ms / 1000.0 + 3.0, s.ctx.interrupt)
+    t.daemon = True
+    t.start()
+    try:
+        return s.check()
+    except z3.Z3Exception:
+        return z3.unknown
+    finally:
+        t.cancel()
+
+
 def discharge(o, z3_ms=10000, cvc5_ms=20000, both=False):
     """decide one obligation.  unsat -> discharged; sat -> refuted with model; else unknown."""
     t = time.time()
@@ -448,7 +463,7 @@ def discharge(o, z3_ms=10000, cvc5_ms=20000, both=False):
             for c in keep:
                 s0.add(c)
             s0.add(z3.Not(o.claim))
-            if s0.check() == z3.unsat:
+            if _check(s0, z3_ms) == z3.unsat:
                 o.status = 'discharged'
                 o.detail = 'discharged without the lambda-array facts of the path condition'
                 o.secs = time.time() - t
@@ -458,7 +473,7 @@ def discharge(o, z3_ms=10000, cvc5_ms=20000, both=False):
     for c in o.pc:
         s.add(c)
     s.add(z3.Not(o.claim))
-    r = s.check()
+    r = _check(s, z3_ms)
     if r == z3.unknown and time.time() - t < z3_ms / 2000.0:
         # the quantifier engine gave up early (not a timeout): retry with other seeds before handing over to cvc5
         for seed in (1, 2, 3):
@@ -468,7 +483,7 @@ def discharge(o, z3_ms=10000, cvc5_ms=20000, both=False):
             for c in o.pc:
                 s2.add(c)
             s2.add(z3.Not(o.claim))
-            r = s2.check()
+            r = _check(s2, z3_ms)
             if r != z3.unknown:
                 s = s2
                 break
@@ -482,7 +497,7 @@ def discharge(o, z3_ms=10000, cvc5_ms=20000, both=False):
             for c in keep:
                 s3.add(c)
             s3.add(z3.Not(o.claim))
-            if s3.check() == z3.unsat:
+            if _check(s3, z3_ms) == z3.unsat:
                 r = z3.unsat
                 o.detail = 'discharged without the lambda-array facts of the path condition'
     if r == z3.unsat:
@@ -500,7 +515,7 @@ def discharge(o, z3_ms=10000, cvc5_ms=20000, both=False):
                 elif kind == 'int' and z3.is_int(p):
                     s.add(p <= 70000, p >= -bound)
             s.set('timeout', 2000)
-            r2 = s.check()
+            r2 = _check(s, 2000)
             if r2 == z3.sat:
                 m = s.model()
                 s.pop()
@@ -541,8 +556,10 @@ def _consts_of(t, out, seen):
             continue
         if z3.is_app(x):
             d = x.decl()
-            if x.num_args() == 0 and d.kind() == z3.Z3_OP_UNINTERPRETED:
-                out.add(d.name())
+            if d.kind() == z3.Z3_OP_UNINTERPRETED:
+                # constants, and uninterpreted functions (the folds crc16 / lrc / ...: a model may give them values the specified function
+                # does not have - such a counter-model is not an input either)
+                out.add(d.name() if x.num_args() == 0 else d.name() + '()')
             stack.extend(x.children())
 
 
